@@ -645,7 +645,11 @@ func (s *state) evalExpr(exp parse.Expr) (v Value, e error) {
 		case parse.OpBinaryFloorDiv:
 			return math.Floor(CoerceNumber(left) / CoerceNumber(right)), nil
 		case parse.OpBinaryModulo:
-			return float64(int(CoerceNumber(left)) % int(CoerceNumber(right))), nil
+			divisor := int(CoerceNumber(right))
+			if divisor == 0 {
+				return nil, errors.New("modulo by zero")
+			}
+			return float64(int(CoerceNumber(left)) % divisor), nil
 		case parse.OpBinaryPower:
 			return math.Pow(CoerceNumber(left), CoerceNumber(right)), nil
 		case parse.OpBinaryConcat:
